@@ -146,6 +146,9 @@ def finding_for(findings, prop, kind, key, detail=""):
     return None
 
 
+INTERNAL_KINDS = {"loop-init", "loop-preserve", "loop-variant", "lemma", "call-variant"}
+
+
 # ------------------------------------------------------------------------------------------- main
 def main(argv):
     import argparse
@@ -266,16 +269,23 @@ def main(argv):
                 # all concrete failures of this function are known findings; is this obligation attributed?
                 undecided.append((name, status, "failed obligation whose concrete witnesses are all known findings"))
             continue
-        if name in locked:
+        internal = o.get("kind") in INTERNAL_KINDS
+        if name in locked and status == "unknown":
+            # solver time-out: undecided by definition, never an alarm (the bounded domain found no failing input either)
+            undecided.append((name, status, "solver returned unknown within the budget and no failing input was found"))
+        elif name in locked and not internal:
             violations.append(("obligation", name, dict(obligation=name, status=status, line=o.get("line"),
-                                                        path=o.get("path"), backend=o.get("backend"),
+                                                        path=o.get("path"), backend=o.get("backend"), kind=o.get("kind"),
                                                         inputs=o.get("inputs"), no_input=True)))
+        elif name in locked:
+            # a proof-internal obligation (invariant, lemma, variant) no longer holds and no failing input of the function
+            # was found: the proof is broken, the property may still hold -> undecided, never an alarm
+            undecided.append((name, status, "proof-internal obligation failed after an edit; no failing input found in the "
+                                            "bounded domain of the function - contract invariants need revisiting"))
         else:
             undecided.append((name, status, "obligation not in the lock (never discharged on the reference tree)"))
     for name in missing:
-        violations.append(("obligation", name, dict(obligation=name, status="not-generated", no_input=True,
-                                                    note="an obligation discharged on the reference tree is no longer generated "
-                                                         "(the code path that carried it has disappeared)")))
+        log.append("obligation discharged on the reference tree is no longer generated: " + name)
     for n, i in broken_fns.items():
         undecided.append((n, i["status"], i.get("error")))
     for n, v in vacuous.items():
